@@ -203,7 +203,7 @@ def gen_spec(seed, profile="core", variant=None, templates=None):
         conn("M0", "K0")
         conn("M0", "K1")
     else:  # pack / packunpack
-        recipe = rng.choice(([1, 1], [1, 2], [1, 3, 1], [1, 1, 2], [1, 2]))
+        recipe = rng.choice(([1, 1], [1, 2], [1, 3, 1], [1, 1, 2], [1, 2], [1, 0, 2], [1, 3, 0], [1, 1, 1, 1]))
         src("SP", "pallet")
         for i in range(1, len(recipe)):
             src(f"SI{i}")
@@ -261,13 +261,25 @@ def gen_spec(seed, profile="core", variant=None, templates=None):
         # connection order decides the in/out edge indices; shuffle it (within the combiner's typed slots it must stay)
         if not any(n["type"] == "combiner" for n in nodes):
             rng.shuffle(corder)
+    inject = None
+    if variant == "inject" or (variant == "plain" and rng.random() < 0.15):
+        cands = []
+        for n in nodes:
+            for side, key in (("out", "out_sel"), ("in", "in_sel")):
+                if isinstance(n.get(key), dict):
+                    deg = outdeg[n["id"]] if side == "out" else indeg[n["id"]]
+                    cands.append((n["id"] + "." + side, deg))
+        if cands:
+            name, deg = rng.choice(cands)
+            inject = {"seq": name, "at": rng.randint(0, 6), "value": rng.choice((-1, deg, deg + 2, -deg))}
     T = rng.choice((17.77, 30, 41.3, 60, 25.5))
     if rng.random() < 0.08:
         T = rng.choice((0.1, 0.6, 1.0, 1.3, 2.05))
     if variant == "finite":
         T = rng.choice((300, 400.5))
     return {"seed": seed, "profile": profile, "variant": variant, "template": template, "nodes": nodes, "edges": edges,
-            "construct_order": order, "connect_order": corder, "T": T, "random_seed": rng.randrange(10 ** 6), "item_length": item_len}
+            "construct_order": order, "connect_order": corder, "T": T, "random_seed": rng.randrange(10 ** 6), "item_length": item_len,
+            "inject": inject}
 
 
 # ----------------------------------------------------------------------------- build
@@ -294,8 +306,12 @@ def build(spec, env):
     ndesc = {n["id"]: n for n in spec["nodes"]}
     edesc = {e["id"]: e for e in spec["edges"]}
 
+    inj = spec.get("inject")
+
     def seq(desc, name):
         s = Seq(env, desc, name)
+        if inj and inj["seq"] == name:
+            s.inject = (inj["at"], inj["value"])
         m.seqs[name] = s
         return s
 
@@ -375,8 +391,21 @@ def run_case(seed, params=None, spec=None):
                     "kind": spec["template"] + "/" + spec["variant"],
                     "nodes": [(n["id"], n["type"]) for n in spec["nodes"]],
                     "edges": [(e["id"], e["type"], e["src"], e["dst"]) for e in spec["edges"]], "T": spec["T"]}}
+    injected = False
+    inj = spec.get("inject")
+    if inj and built:
+        sq = m.seqs.get(inj["seq"])
+        injected = sq is not None and sq.i > inj["at"]
     if fo is not None:
+        fo.injected = injected
         fo.finish(exc)
+    if inj and injected:
+        mon.counters["c15_out_of_range_injections"] += 1
+        if exc is None:
+            mon.violation("C15", "out_of_range_index_accepted", f"{inj['seq'].split('.')[1]}-selector-returned-out-of-range-index-and-the-run-went-on",
+                          {"selector": inj["seq"], "value": inj["value"], "consultation": inj["at"]})
+        else:
+            res["expected_crash"] = True
     crash = None
     if exc is not None:
         import traceback
